@@ -274,3 +274,15 @@ package bitcoin
 //@   yields ghost.txLastOut = output
 //@   ensures [the-output-is-appended-with-its-own-value-and-script] len(tb.internal.MsgTx.TxOut) == old(len(tb.internal.MsgTx.TxOut)) + 1 && tb.internal.MsgTx.TxOut[old(len(tb.internal.MsgTx.TxOut))].Value == output.Value && tb.internal.MsgTx.TxOut[old(len(tb.internal.MsgTx.TxOut))].PkScript == output.PublicKeyScript
 //@   ensures ghost.txOut == old(ghost.txOut) + output.Value && ghost.txOuts == old(ghost.txOuts) + 1 && ghost.txLastOut == output
+
+// TotalInputsValue: the engine has no heap-dependent recursive spec functions, so
+// the general statement "the sum of all recorded values, which is the ledger
+// total" stays a trusted clause (listed in the evidence); checked against the
+// body for all values: the exact result for zero, one and (absent int64 overflow) two inputs.
+//@ func TransactionBuilder.TotalInputsValue
+//@   property C26
+//@   opt noframe 1
+//@   requires tb != nil
+//@   callers-assume [the-total-is-the-ledger-total] result == ghost.txIn
+//@   ensures [exact-for-up-to-two-inputs] (len(tb.sigHashArgs) == 0 ==> result == 0) && (len(tb.sigHashArgs) == 1 ==> result == tb.sigHashArgs[0].value) && (len(tb.sigHashArgs) == 2 && tb.sigHashArgs[0].value + tb.sigHashArgs[1].value <= 9223372036854775807 && tb.sigHashArgs[0].value + tb.sigHashArgs[1].value >= -9223372036854775808 ==> result == tb.sigHashArgs[0].value + tb.sigHashArgs[1].value)
+//@   loop 1 invariant (rangeidx1 == 0 ==> totalInputsValue == 0) && (rangeidx1 == 1 ==> totalInputsValue == tb.sigHashArgs[0].value) && (rangeidx1 == 2 && tb.sigHashArgs[0].value + tb.sigHashArgs[1].value <= 9223372036854775807 && tb.sigHashArgs[0].value + tb.sigHashArgs[1].value >= -9223372036854775808 ==> totalInputsValue == tb.sigHashArgs[0].value + tb.sigHashArgs[1].value)
